@@ -287,25 +287,32 @@ def check_conv1(ctx, case):
     n, P, bc = case["n"], np.array(case["psf"], dtype=float), case["bc"]
     A, x, y = imat(case["A"]), ivec(case["x"]), ivec(case["y"])
     key = "deconv1d/psf=%s/bc=%s" % ("x".join(str(int(v)) for v in P), bc)
-    with _quiet():
-        tp = cuqi.testproblem.Deconvolution1D(dim=n, PSF=P, BC=BC1[bc], phantom=np.ones(n))
-    model = tp.model
     ctx.case("tp/" + key, facet="deconv1d")
-    fx = np.asarray(model.forward(x), dtype=float)
+    # a documented option combination on which the library itself raises is a finding of the property (exit 1), not a
+    # machinery failure (exit 2): only the library calls are guarded
+    try:
+        with _quiet():
+            tp = cuqi.testproblem.Deconvolution1D(dim=n, PSF=P, BC=BC1[bc], phantom=np.ones(n))
+        model = tp.model
+        fx = np.asarray(model.forward(x), dtype=float)
+        G = _dense(model.get_matrix())
+        cols = np.column_stack([np.asarray(model.forward(e), dtype=float) for e in np.eye(n)])
+        ay = np.asarray(model.adjoint(y), dtype=float)
+    except Exception as e:  # noqa: BLE001
+        ctx.mismatch("tp/%s/raised" % key, case, "Deconvolution1D with a custom PSF and a documented boundary condition raised in "
+                     "construction / forward / get_matrix / adjoint", None, repr(e))
+        return
     if not close(fx, ivec(case["Ax"])):
         cls = "transposed" if close(fx, A.T @ x) else "other"
         ctx.mismatch("tp/%s/forward/%s" % (key, cls), case,
                      "forward(x) is not the documented convolution (scipy.ndimage.convolve1d of x with the PSF under the boundary condition)"
                      + ("; it is its transpose" if cls == "transposed" else ""), case["Ax"], fx)
-    G = _dense(model.get_matrix())
-    cols = np.column_stack([np.asarray(model.forward(e), dtype=float) for e in np.eye(n)])
     if not close(G, A):
         cls = "transposed" if close(G, A.T) else "other"
         ctx.mismatch("tp/%s/matrix/%s" % (key, cls), case, "matrix of the problem does not have the columns A e_i of the documented "
                      "convolution" + (" (they are its rows)" if cls == "transposed" else ""), A, G)
     if not close(G, cols):
         ctx.mismatch("tp/%s/get_matrix/other" % key, case, "get_matrix() does not reproduce forward column by column", cols, G)
-    ay = np.asarray(model.adjoint(y), dtype=float)
     if abs(fx @ y - x @ ay) > 1e-9 * max(1.0, abs(fx @ y)):
         ctx.mismatch("tp/%s/adjoint/other" % key, case, "<A x, y> != <x, A* y>", float(fx @ y), float(x @ ay))
     # scipy's convolve1d is the documented definition: the specification must agree with it (machinery sanity)
@@ -323,11 +330,16 @@ def check_conv2(ctx, case):
     A, x, y = imat(case["A"]), ivec(case["x"]), ivec(case["y"])
     sym = bool(np.array_equal(P, P[::-1, ::-1]))
     key = "deconv2d/psf=custom_%s_%s/bc=%s" % ("odd" if P.shape[0] % 2 else "even", "sym" if sym else "asym", bc)
-    with _quiet():
-        tp = cuqi.testproblem.Deconvolution2D(dim=n, PSF=P, BC=BC2[bc], phantom=np.ones((n, n)))
-    model = tp.model
     ctx.case("tp/" + key, facet="deconv2d")
-    fx = np.asarray(model.forward(x), dtype=float)
+    try:
+        with _quiet():
+            tp = cuqi.testproblem.Deconvolution2D(dim=n, PSF=P, BC=BC2[bc], phantom=np.ones((n, n)))
+        model = tp.model
+        fx = np.asarray(model.forward(x), dtype=float)
+    except Exception as e:  # noqa: BLE001 - see check_conv1
+        ctx.mismatch("tp/%s/raised" % key, case, "Deconvolution2D with a custom PSF and a documented boundary condition raised in "
+                     "construction / forward", None, repr(e))
+        return
     if not close(fx, ivec(case["Ax"]), 1e-9):
         ctx.mismatch("tp/%s/forward/other" % key, case, "forward(x) is not the padded convolution of the specification", case["Ax"], fx)
         return
